@@ -18,7 +18,9 @@ func romanIs(err error) []string {
 func romanTyped(err error) bool {
 	var a *roman.NumberFormatError[string]
 	var b *roman.NumberFormatError[[]byte]
-	return errors.As(err, &a) || errors.As(err, &b)
+	var c *roman.NumberFormatError[myStr]
+	var d *roman.NumberFormatError[myBytes]
+	return errors.As(err, &a) || errors.As(err, &b) || errors.As(err, &c) || errors.As(err, &d)
 }
 
 // clampN logs a parsed number; values beyond int32 cannot come from inputs the drivers use
@@ -32,9 +34,14 @@ func clampN(n roman.Number) int {
 
 func romanParse(in []byte, rule roman.Rule, T string) (n roman.Number, err error, panicked bool) {
 	panicked = try(func() {
-		if T == "s" {
+		switch T {
+		case "s":
 			n, err = roman.DefaultParser(string(in), rule)
-		} else {
+		case "S":
+			n, err = roman.DefaultParser(myStr(in), rule)
+		case "B":
+			n, err = roman.DefaultParser(myBytes(reused(in)), rule)
+		default:
 			n, err = roman.DefaultParser(reused(in), rule)
 		}
 	})
@@ -131,9 +138,14 @@ func init() {
 		e["echo"] = err != nil && containsBytes(err.Error(), in)
 		var verr error
 		vp := try(func() {
-			if str(e["T"]) == "s" {
+			switch str(e["T"]) {
+			case "s":
 				verr = roman.Valid(string(in), rule)
-			} else {
+			case "S":
+				verr = roman.Valid(myStr(in), rule)
+			case "B":
+				verr = roman.Valid(myBytes(in), rule)
+			default:
 				verr = roman.Valid(in, rule)
 			}
 		})
